@@ -70,16 +70,20 @@ func newWorld(thorough bool) *world {
 	w.ts.Rec.Take()
 	w.p = &probe{Recorder: w.ts.Rec}
 	w.events = len(w.ts.T.EventsList)
+	w.bodies = newWorldBodies()
+	w.base = w.ts.Snap(true).String()
+	return w
+}
+
+func newWorldBodies() map[string][]byte {
 	garbage := &demonwire.W{}
 	garbage.I32(0x41414141)
-	w.bodies = map[string][]byte{
+	return map[string][]byte{
 		"checkin":  demonwire.CheckIn(knownAgent, seam.Key(1), seam.IV(1)),
 		"register": demonwire.Register(newAgent, seam.Key(2), seam.IV(2), demonwire.DefaultMeta(newAgent)),
 		"garbage":  demonwire.Header(demonwire.Magic, ghostAgent, demonwire.GetJob, 0, garbage.B),
 		"junk":     []byte("hello"),
 	}
-	w.base = w.ts.Snap(true).String()
-	return w
 }
 
 // forget removes the session a served registration created, so that every cell starts
@@ -497,6 +501,9 @@ func worker(r *ev.Run, cfgs []Config, i, n int) {
 	defer w.ts.Close()
 	if i == 0 {
 		w.startedListeners(r)
+	}
+	if i == 1%n {
+		editedListeners(r, r.Thorough())
 	}
 	// Configurations are visited in a fixed stride permutation of the product order, so
 	// that a run stopped by the deadline has seen every value of every feature rather
